@@ -12,6 +12,13 @@ EXTENDS Integers, Sequences, FiniteSets, SequencesExt, FiniteSetsExt, PyList, TL
 Core(L)   == [i \in DOMAIN L |-> <<L[i].id, L[i].o, L[i].m, L[i].a>>]
 Useful(o) == IF o \in {"", " "} THEN "UNKNOWN" ELSE o
 FirstS(L, k) == LET m == {i \in DOMAIN L : L[i].s = k} IN IF m = {} THEN 0 ELSE Min(m)
+\* Sections that lasio read with a case option compare names case-insensitively.  The projection then logs, next to every
+\* session name s, original name o and lookup key k, its comparison key (sf, of, kf: the upper-cased string); without these
+\* fields (fresh LASFiles, the CurvesAlgo model) the names are their own comparison keys.
+SF(c) == IF "sf" \in DOMAIN c THEN c.sf ELSE c.s
+OF(c) == IF "of" \in DOMAIN c THEN c.of ELSE Useful(c.o)
+KF(e) == IF "kf" \in DOMAIN e THEN e.kf ELSE e.k
+FirstK(L, e) == LET m == {i \in DOMAIN L : SF(L[i]) = KF(e)} IN IF m = {} THEN 0 ELSE Min(m)
 New(id, n, a) == <<id, n, 0, a>>
 \* update codes: 0 = leave metadata alone, 1 = unit, 7 = unit+descr+value, 8 = reset all three to empty (falsy) values
 NewMeta(old, m) == IF m = 0 THEN old ELSE IF m = 8 THEN 0 ELSE IF m > old THEN m ELSE old
@@ -21,8 +28,8 @@ Upd(c, a, m)  == <<c[1], c[2], NewMeta(c[3], m), IF a = 0 THEN c[4] ELSE a>>
 \* which call fails, and how (a failing call changes nothing)
 ExpExc(L, e) ==
     CASE e.op = "delete_ix"    -> IF PyPos(Len(L), e.i) = 0 THEN "IndexError" ELSE ""
-      [] e.op = "delete_mn"    -> IF FirstS(L, e.k) = 0 THEN "ValueError" ELSE ""
-      [] e.op = "update_mn"    -> IF FirstS(L, e.k) = 0 THEN "ValueError" ELSE ""
+      [] e.op = "delete_mn"    -> IF FirstK(L, e) = 0 THEN "ValueError" ELSE ""
+      [] e.op = "update_mn"    -> IF FirstK(L, e) = 0 THEN "ValueError" ELSE ""
       [] e.op = "update_ix"    -> IF PyPos(Len(L), e.i) = 0 THEN "IndexError" ELSE ""
       [] e.op = "replace_item" -> IF PyPos(Len(L), e.i) = 0 THEN "IndexError" ELSE ""
       [] e.op = "setitem_item" -> IF e.k # Useful(e.n) THEN "KeyError" ELSE ""
@@ -35,14 +42,14 @@ ExpCore(L, e) ==
     CASE e.op = "append_curve" -> Append(C, New(e.nid, e.n, e.a))
       [] e.op = "insert_curve" -> PyInsert(C, e.i, New(e.nid, e.n, e.a))
       [] e.op = "delete_ix"    -> RemoveAt(C, PyPos(Len(L), e.i))
-      [] e.op = "delete_mn"    -> RemoveAt(C, FirstS(L, e.k))
-      [] e.op = "update_mn"    -> [C EXCEPT ![FirstS(L, e.k)] = Upd(@, e.a, e.m)]
+      [] e.op = "delete_mn"    -> RemoveAt(C, FirstK(L, e))
+      [] e.op = "update_mn"    -> [C EXCEPT ![FirstK(L, e)] = Upd(@, e.a, e.m)]
       [] e.op = "update_ix"    -> [C EXCEPT ![PyPos(Len(L), e.i)] = Upd(@, e.a, e.m)]
       [] e.op = "replace_item" -> [C EXCEPT ![PyPos(Len(L), e.i)] = New(e.nid, e.n, e.a)]
-      [] e.op = "setitem_arr"  -> IF FirstS(L, e.k) = 0 THEN Append(C, New(e.nid, e.k, e.a))
-                                  ELSE [C EXCEPT ![FirstS(L, e.k)] = Upd(@, e.a, 0)]
-      [] e.op = "setitem_item" -> IF FirstS(L, e.k) = 0 THEN Append(C, New(e.nid, e.n, e.a))
-                                  ELSE [C EXCEPT ![FirstS(L, e.k)] = New(e.nid, e.n, e.a)]
+      [] e.op = "setitem_arr"  -> IF FirstK(L, e) = 0 THEN Append(C, New(e.nid, e.k, e.a))
+                                  ELSE [C EXCEPT ![FirstK(L, e)] = Upd(@, e.a, 0)]
+      [] e.op = "setitem_item" -> IF FirstK(L, e) = 0 THEN Append(C, New(e.nid, e.n, e.a))
+                                  ELSE [C EXCEPT ![FirstK(L, e)] = New(e.nid, e.n, e.a)]
       [] OTHER -> C
 
 \* set_data(A, names, truncate): column i of A becomes the data of curve i; the list is extended by
@@ -63,7 +70,7 @@ SetDataOK(L, e, P) ==
 \* set_data (re)names every curve, so afterwards the session names are the fresh numbering of the names: unique names bare,
 \* duplicates :1..:n in order (this is what keys() / las[name] expose)
 NamesFresh(P) == \A i \in DOMAIN P :
-                    LET g == {j \in DOMAIN P : Useful(P[j].o) = Useful(P[i].o)}
+                    LET g == {j \in DOMAIN P : OF(P[j]) = OF(P[i])}
                     IN P[i].s = IF Cardinality(g) > 1 THEN Useful(P[i].o) \o ":" \o ToString(Cardinality({j \in g : j <= i}))
                                 ELSE Useful(P[i].o)
 C_SetDataNames(e, P) == (e.op = "set_data" /\ e.exc = "") => NamesFresh(P)
@@ -78,6 +85,6 @@ V_Items(L, v)  == v.items = [i \in DOMAIN L |-> <<L[i].s, L[i].a>>]
 V_Index(L, v)  == Len(L) > 0 => v.index = L[1].a
 V_Data(L, v)   == Len(L) > 0 => v.data = [i \in DOMAIN L |-> L[i].a]
 V_ByInt(L, v)  == \A q \in Range(v.byint)  : q.a = LET p == PyPos(Len(L), q.i) IN IF p = 0 THEN 0 ELSE L[p].a
-V_ByName(L, v) == \A q \in Range(v.byname) : LET p == FirstS(L, q.k)  x == IF p = 0 THEN 0 ELSE L[p].a
+V_ByName(L, v) == \A q \in Range(v.byname) : LET p == FirstK(L, q)  x == IF p = 0 THEN 0 ELSE L[p].a
                                                IN q.a = x /\ q.gc = x          \* las[k] and las.get_curve(k)
 =============================================================================
